@@ -53,13 +53,14 @@ package core
 //@   ensures [cancelled] g.canceled && g.err == err && unchanged(g.count, g.arrived)
 
 //@ func (*gateImpl).Clear
-//@   modifies g.canceled, g.arrived, g.err
-//@   ensures [cleared] !g.canceled && g.arrived == 0 && g.err == nil && unchanged(g.count)
+//@   modifies g.canceled, g.arrived, g.err, g.count
+//@   ensures [cleared] !g.canceled && g.arrived == 0 && g.err == nil
+//@   ensures [expects-what-a-new-gate-expects] g.count == g.initialCount
 
 //@ func NewGate
 //@   modifies nothing
 //@   ensures [fresh] typeis(r0, *gateImpl) && fresh(r0)
-//@   ensures [initial] r0.(*gateImpl).count == count && r0.(*gateImpl).arrived == 0 && !r0.(*gateImpl).canceled && r0.(*gateImpl).err == nil
+//@   ensures [initial] r0.(*gateImpl).count == count && r0.(*gateImpl).initialCount == count && r0.(*gateImpl).arrived == 0 && !r0.(*gateImpl).canceled && r0.(*gateImpl).err == nil
 
 // ---------------------------------------------------------------------------------------------
 // C11: flow objects fan out to every gate. The four (three) gates are distinct gateImpl objects.
@@ -71,8 +72,8 @@ package core
 //@ spec gateCancelled(g Gate, e error) bool = g.(*gateImpl).canceled && g.(*gateImpl).err == e
 //@ spec gateCleared(g Gate) bool = !g.(*gateImpl).canceled && g.(*gateImpl).arrived == 0 && g.(*gateImpl).err == nil
 
-//@ spec initFlowWired(s *initFlowSynchronizationImpl) bool = isGate(s.externalAgentsRegisteredGate) && isGate(s.runtimeReadyGate) && isGate(s.agentReadyGate) && isGate(s.runtimeRestoreReadyGate) && ref(s.externalAgentsRegisteredGate) != ref(s.runtimeReadyGate) && ref(s.externalAgentsRegisteredGate) != ref(s.agentReadyGate) && ref(s.externalAgentsRegisteredGate) != ref(s.runtimeRestoreReadyGate) && ref(s.runtimeReadyGate) != ref(s.agentReadyGate) && ref(s.runtimeReadyGate) != ref(s.runtimeRestoreReadyGate) && ref(s.agentReadyGate) != ref(s.runtimeRestoreReadyGate)
-//@ spec invokeFlowWired(s *invokeFlowSynchronizationImpl) bool = isGate(s.runtimeReadyGate) && isGate(s.runtimeResponseGate) && isGate(s.agentReadyGate) && ref(s.runtimeReadyGate) != ref(s.runtimeResponseGate) && ref(s.runtimeReadyGate) != ref(s.agentReadyGate) && ref(s.runtimeResponseGate) != ref(s.agentReadyGate)
+//@ spec initFlowWired(s *initFlowSynchronizationImpl) bool = isGate(s.externalAgentsRegisteredGate) && isGate(s.runtimeReadyGate) && isGate(s.agentReadyGate) && isGate(s.runtimeRestoreReadyGate) && ref(s.externalAgentsRegisteredGate) != ref(s.runtimeReadyGate) && ref(s.externalAgentsRegisteredGate) != ref(s.agentReadyGate) && ref(s.externalAgentsRegisteredGate) != ref(s.runtimeRestoreReadyGate) && ref(s.runtimeReadyGate) != ref(s.agentReadyGate) && ref(s.runtimeReadyGate) != ref(s.runtimeRestoreReadyGate) && ref(s.agentReadyGate) != ref(s.runtimeRestoreReadyGate) && gateOf(s.runtimeReadyGate).initialCount == 1 && gateOf(s.externalAgentsRegisteredGate).initialCount == 0 && gateOf(s.agentReadyGate).initialCount == 65535 && gateOf(s.runtimeRestoreReadyGate).initialCount == 1
+//@ spec invokeFlowWired(s *invokeFlowSynchronizationImpl) bool = isGate(s.runtimeReadyGate) && isGate(s.runtimeResponseGate) && isGate(s.agentReadyGate) && ref(s.runtimeReadyGate) != ref(s.runtimeResponseGate) && ref(s.runtimeReadyGate) != ref(s.agentReadyGate) && ref(s.runtimeResponseGate) != ref(s.agentReadyGate) && gateOf(s.runtimeReadyGate).initialCount == 1 && gateOf(s.runtimeResponseGate).initialCount == 1 && gateOf(s.agentReadyGate).initialCount == 65535
 
 //@ typeinv initFlowSynchronizationImpl s
 //@   inv initFlowWired(s)
